@@ -75,6 +75,30 @@ fn sub_open(path: &str) {
     }
 }
 
+static SUBSKIP: std::sync::atomic::AtomicU64 = std::sync::atomic::AtomicU64::new(0);
+
+/// As `sub_mark`, with the ordinal of the sub-step inside the current case.
+/// Returns false when this sub-step must be skipped because a previous worker
+/// already ran (or died in) it.
+pub fn sub_mark_n(ordinal: u64, s: &str) -> bool {
+    if ordinal < SUBSKIP.load(Ordering::Relaxed) {
+        return false;
+    }
+    sub_mark(s);
+    let p = SUB_PTR.load(Ordering::Relaxed);
+    if !p.is_null() {
+        unsafe { std::ptr::copy_nonoverlapping(ordinal.to_le_bytes().as_ptr(), p.add(SUB_LEN - 8), 8) };
+    }
+    true
+}
+
+fn sub_clear_ordinal() {
+    let p = SUB_PTR.load(Ordering::Relaxed);
+    if !p.is_null() {
+        unsafe { std::ptr::copy_nonoverlapping(u64::MAX.to_le_bytes().as_ptr(), p.add(SUB_LEN - 8), 8) };
+    }
+}
+
 /// Record what the worker is about to execute inside the current case (cheap:
 /// a memcpy into a shared mapping). Read back by the parent if the worker dies.
 pub fn sub_mark(s: &str) {
@@ -83,7 +107,7 @@ pub fn sub_mark(s: &str) {
         return;
     }
     let b = s.as_bytes();
-    let n = b.len().min(SUB_LEN - 2);
+    let n = b.len().min(SUB_LEN - 2 - 8);
     unsafe {
         std::ptr::copy_nonoverlapping(b.as_ptr(), p.add(2), n);
         *(p as *mut u16) = n as u16;
@@ -114,10 +138,13 @@ pub fn run_worker_loop(check: &dyn Check, ctx: &Ctx, wa: &WorkerArgs) {
         idx += wa.nshards as u64;
     }
     let mut last_flush = std::time::Instant::now();
+    SUBSKIP.store(wa.subskip, Ordering::Relaxed);
     while idx < n {
         io.begin(idx, &check.label(ctx, idx));
         sub_mark("");
+        sub_clear_ordinal();
         check.run_case(ctx, idx, &mut frag);
+        SUBSKIP.store(0, Ordering::Relaxed);
         io.end(idx);
         since += 1;
         if since >= 2000 || last_flush.elapsed().as_millis() > 1500 || !frag.violations.is_empty()
@@ -191,7 +218,7 @@ pub fn main_with(checks: &[&dyn Check]) -> i32 {
         "VERIF_SUBFILE_DIR".into(),
         subdir.to_string_lossy().to_string(),
     ));
-    let (frag, mut deaths) = supervise(
+    let (frag, deaths) = supervise(
         &ctx,
         &exe,
         &[id.clone()],
@@ -200,13 +227,6 @@ pub fn main_with(checks: &[&dyn Check]) -> i32 {
         200,
         &envs,
     );
-    for d in deaths.iter_mut() {
-        let p = subdir.join(format!("sub-{}-{}", std::process::id(), d.shard));
-        let s = sub_read(&p);
-        if !s.is_empty() {
-            d.label = format!("{} :: {}", d.label, s);
-        }
-    }
     for s in 0..shards {
         let _ = std::fs::remove_file(subdir.join(format!("sub-{}-{}", std::process::id(), s)));
     }
@@ -218,6 +238,10 @@ pub fn main_with(checks: &[&dyn Check]) -> i32 {
             "worker_deaths".into(),
             json!(deaths.iter().take(20).map(death_json).collect::<Vec<_>>()),
         );
+    }
+    if let Ok(p) = std::env::var("VERIF_FRAG_OUT") {
+        report.dump_part(std::path::Path::new(&p));
+        return 0;
     }
     report.finish()
 }
